@@ -178,6 +178,11 @@ benign("c14-benign-sorted-twice", "C14", PS, "            for pname in sorted(ca
 benign("c14-benign-set-membership-loop", "C14", OPT, "            if t2_node not in output_transposes:\n                continue\n", "            if t2_node not in output_transposes:\n                continue\n            n_inverse = 0\n            for _t in output_transposes:\n                n_inverse += 1\n")
 
 # ----------------------------------------------------------------------------- C01
+mutant("c01-lt-operands-swapped", "C01", "jax2onnx/plugins/jax/lax/lt.py", "ctx.builder.Less(lhs_val, rhs_val,", "ctx.builder.Less(rhs_val, lhs_val,", expect="R-C01d")
+mutant("c01-sub-operands-swapped", "C01", "jax2onnx/plugins/jax/lax/sub.py", "ctx.builder.Sub(a_val, b_val, _outputs=[output_name])", "ctx.builder.Sub(b_val, a_val, _outputs=[output_name])", expect="R-C01d")
+mutant("c01-div-operands-swapped", "C01", "jax2onnx/plugins/jax/lax/div.py", "ctx.builder.Div(lhs_val, rhs_val, _outputs=[output_name])", "ctx.builder.Div(rhs_val, lhs_val, _outputs=[output_name])", expect="R-C01d")
+mutant("c01-jnp-greater-unpack-swapped", "C01", "jax2onnx/plugins/jax/numpy/greater.py", "ctx.builder.Greater(lhs_cmp, rhs_cmp,", "ctx.builder.Greater(rhs_cmp, lhs_cmp,", expect="R-C01d")
+benign("c01-benign-lt-as-mirrored-greater", "C01", "jax2onnx/plugins/jax/lax/lt.py", "ctx.builder.Less(lhs_val, rhs_val,", "ctx.builder.Greater(rhs_val, lhs_val,")
 mutant("c01-round-ignores-rounding-method", "C01", "jax2onnx/plugins/jax/lax/round.py", '        method = eqn.params.get(\n            "rounding_method", jax.lax.RoundingMethod.AWAY_FROM_ZERO\n        )', "        method = jax.lax.RoundingMethod.AWAY_FROM_ZERO", expect="round_p::rounding_method")
 mutant("c01-cumsum-ignores-reverse", "C01", "jax2onnx/plugins/jax/lax/cumsum.py", '        reverse = bool(params.get("reverse", False))', "        reverse = False", expect="cumsum_p::reverse")
 mutant("c01-finalize-made-conditional", "C01", "jax2onnx/converter/lowering_dispatch.py", "        finalize_eqn_lowering_outputs(\n            ctx,\n            eqn,\n            lowering_result,", "        if lowering_result is not None:\n          finalize_eqn_lowering_outputs(\n            ctx,\n            eqn,\n            lowering_result,", expect="finalize_eqn_lowering_outputs")
